@@ -22,6 +22,7 @@ import (
 	"lunar/toolkit-core/logging"
 	"lunar/toolkit-core/network"
 	"lunar/toolkit-core/otel"
+	"lunar/toolkit-core/verifhook"
 	"net/http"
 	"sync"
 	"time"
@@ -242,6 +243,7 @@ func (rd *HandlingDataManager) initializeStreams() (err error) {
 	}
 	rd.stream = stream
 	rd.stream.WithHub(rd.lunarHub)
+	verifhook.Yield("streams.published", "")
 	if err = rd.stream.Initialize(); err != nil {
 		return fmt.Errorf("failed to initialize streams: %w", err)
 	}
